@@ -88,7 +88,13 @@ func genBasicRPC(t *rapid.T, label string, maxMsgs int, allowHuge bool) RPC {
 			r.HOps = append(r.HOps, MDOp{Kind: "send", Idx: i})
 		}
 	}
+	r.Fuse = genFuse(t, label)
 	return r
+}
+
+// genFuse: which side's actors run their operations back to back instead of one per scheduler step.
+func genFuse(t *rapid.T, label string) string {
+	return rapid.SampledFrom([]string{"", "", "", "", "h", "c", "both"}).Draw(t, label+".fuse")
 }
 
 var allDirs = []string{"fwd", "fwd", "fwd", "fwd", "rev", "rev", "rev", "nested", "nestedrev"}
